@@ -33,7 +33,7 @@ CLAIM = dict(
     "center_stable (float bridge: quotient error < 1/2 voxel cannot change a centre's index). Remaining public surface (round 2): coordinate_vector_linear, "
     "num_voxels_length (num_voxels(length(n)) = n; num_voxels(L) voxels cover L with < 1 voxel to spare), ceil_bridge, min_max_coordinate + voxel_in_domain (bounding box, "
     "reversed axes), matrix_indexing_false_involutive, check_equal_refl, check_equal_symm_of_symm, npclose_not_symmetric (witness: numpy's isclose is not symmetric), "
-    "inplace_ops_preserve_wellformedness (reset_origin(), origin / dimensions assignments keep the geometry well formed, so all theorems apply to the current fields), reset_origin_default. Tie: generated axis table + "
+    "inplace_ops_preserve_wellformedness (reset_origin(), origin / dimensions assignments keep the geometry well formed, so all theorems apply to the current fields), reset_origin_default, typed_subselection (__getitem__ of the typed arrays: result class, values, selection commutes with conversion). Tie: generated axis table + "
     "differential correspondence model vs implementation (coordinate, voxel, opposite_corner, voxel_size, default origin, typed points, coordinate_vector, length, num_voxels, "
     "min/max_coordinate, Image.domain, voxels/coordinates, make_* incl. matrix_indexing=False and batch assertions, check_equal_coordinatesystems incl. error classes), exact on dyadic geometries, index-exact with measured float error "
     "(recorded, must stay < 2^-20 voxel) on general geometries with origins up to 1e6 voxel sizes away.",
@@ -64,6 +64,8 @@ def gen_geometry(rng, dim, shape, regime):
             origin = None
         elif regime == "dy-user":
             origin = [float(Fraction(rng.randint(-200, 200), 2 ** rng.randint(0, 4))) for _ in range(dim)]
+            if rng.random() < 0.3:  # integer-typed origin (an int array inside the image): conversions must not inherit the dtype
+                origin = [rng.randint(-200, 200) for _ in range(dim)]
         else:
             # origin about 1e6 voxel sizes away, still exactly representable together with every coordinate
             origin = [None] * dim
@@ -289,6 +291,20 @@ def check_case(d, case):
         back = np.asarray(back)
         got = back[0] if form == "batch" else back
         return bool(np.array_equal(got, np.array(v))), [int(x) for x in np.ravel(got)], list(v)
+    if clause == "getitem":
+        batches = typed_batches(d, cs, case["voxels"])
+        kind, arr, ecls, acls = [b for b in batches if b[0] == case["kind"]][0]
+        form, key = case["form"], case["key"]
+        npkey = key if form == "int" else np.array(key, dtype=(bool if form == "mask" else int))
+        got = call(lambda: arr[npkey])
+        want_cls = ecls if form == "int" else acls
+        if isinstance(got, Raised) or type(got) is not want_cls or not np.array_equal(np.asarray(got), np.asarray(arr)[npkey]):
+            return False, f"{type(got).__name__} {got!r}"[:200], f"{want_cls.__name__} {np.asarray(arr)[npkey].tolist()}"
+        if kind != "coord":
+            conv = call(lambda: got.to_coordinate(cs))
+            want = np.asarray(arr.to_coordinate(cs))[npkey]
+            return (not isinstance(conv, Raised)) and bool(np.array_equal(np.asarray(conv), want)), repr(conv)[:200], want.tolist()
+        return True, "ok", "ok"
     if clause == "reset-returned":
         im2 = make_image(d, case["geometry"], case.get("payload", "scalar"))
         ret = call(im2.reset_origin, True)
@@ -477,6 +493,49 @@ def oracle_surface(ctx, d, g, payload, img, cs, origin, stats):
         ctx.fail(f"C01:Voxel(matrix_indexing=False):dim={dim}", f"make_voxel({raw.tolist()}, matrix_indexing=False) = {once!r}, applied twice {twice!r}", {**base, "raw": raw.tolist()})
 
 
+def typed_batches(d, cs, vrows):
+    """The three typed batches of the voxels `vrows`: (kind token, array object, element class, array class)."""
+    V = d.make_voxel(np.array(vrows))
+    C = V.to_voxel_center()
+    X = C.to_coordinate(cs)
+    return (("vox", V, d.Voxel, d.VoxelArray), ("ctr", C, d.VoxelCenter, d.VoxelCenterArray), ("coord", X, d.Coordinate, d.CoordinateArray))
+
+
+def getitem_keys(rng, n):
+    idx = [rng.randrange(-n, n) for _ in range(rng.randint(1, 4))]
+    mask = [rng.random() < 0.5 for _ in range(n)]
+    return (("int", rng.randrange(-n, n)), ("idx", idx), ("mask", mask))
+
+
+def oracle_getitem(ctx, d, g, cs, vox, base):
+    """Sub-selection of typed batches: class of the result, values, and selection commutes with conversion."""
+    rng = ctx.rng
+    dim = g["dim"]
+    rows = [[int(x) for x in vox[rng.randrange(len(vox))]] for _ in range(rng.randint(2, 5))]
+    n = len(rows)
+    batches = call(typed_batches, d, cs, rows)
+    if isinstance(batches, Raised):
+        return
+    for kind, arr, ecls, acls in batches:
+        plain = np.asarray(arr)
+        full_coord = np.asarray(arr.to_coordinate(cs))  # the whole batch converted: the reference for any sub-batch
+        for form, key in getitem_keys(rng, n):
+            npkey = key if form == "int" else np.array(key, dtype=(bool if form == "mask" else int))
+            got = call(lambda: arr[npkey])
+            ctx.count(("getitem", kind, form, json.dumps(g)))
+            want_cls = ecls if form == "int" else acls
+            case = {**base, "clause": "getitem", "voxels": rows, "kind": kind, "form": form, "key": key}
+            if isinstance(got, Raised) or type(got) is not want_cls or not np.array_equal(np.asarray(got), plain[npkey]):
+                ctx.fail(f"C01:typed-array[{form}]:{kind}:class-or-values", f"{acls.__name__}[{form} key {key}] of the batch of voxels {rows}: got {type(got).__name__} {np.asarray(got).tolist() if not isinstance(got, Raised) else got!r}, "
+                         f"required {want_cls.__name__} {plain[npkey].tolist()}", case)
+                continue
+            if kind != "coord":
+                conv = call(lambda: got.to_coordinate(cs))
+                if isinstance(conv, Raised) or not np.array_equal(np.asarray(conv), full_coord[npkey]):
+                    ctx.fail(f"C01:typed-array[{form}]:{kind}:selection-does-not-commute-with-to_coordinate",
+                             f"{acls.__name__}[{form} key {key}].to_coordinate(cs) = {np.asarray(conv).tolist() if not isinstance(conv, Raised) else conv!r} but the same rows of the converted batch are {full_coord[npkey].tolist()} (voxels {rows})", case)
+
+
 def oracle_geometry(ctx, d, g, payload, halo, stats):
     """All clauses of the statement on one geometry; vectorised, failures confirmed by check_case."""
     rng = ctx.rng
@@ -586,6 +645,7 @@ def oracle_geometry(ctx, d, g, payload, halo, stats):
                 ctx.fail(f"C01:batch!=map-of-single:{kind}:dim={dim}:N={'1' if nb == 1 else '>1'}",
                          f"batch of {nb} voxel centre(s) {rows} through coordinate()/voxel() ({kind}): observed {obs}, required {req}", {**case, "observed": obs, "required": req})
     oracle_surface(ctx, d, g, payload, img, cs, origin, stats)
+    oracle_getitem(ctx, d, g, cs, vox, base)
     # typed points: a negative, an inside and a beyond voxel, single and batch
     picks = {}
     for row in vox:
@@ -817,6 +877,27 @@ def correspondence(ctx, d, geoms, halo, stats):
                     else:
                         k = "coord" if isinstance(r, d.Coordinate) else "vox" if isinstance(r, d.Voxel) else "ctr" if isinstance(r, d.VoxelCenter) else "?"
                         impl.append(f"{k} {fmts(np.asarray(r))}")
+            # __getitem__ of the typed arrays: int key, index array, boolean mask, anything else (slice)
+            grows = [[int(x) for x in vox[ctx.rng.randrange(len(vox))]] for _ in range(ctx.rng.randint(2, 4))]
+            gb = call(typed_batches, d, cs, grows)
+            if not isinstance(gb, Raised):
+                for gkind, garr, _, _ in gb:
+                    enc_rows = pts_tokens(np.asarray(garr))
+                    for form, key in getitem_keys(ctx.rng, len(grows)) + (("other", slice(0, 1)),):
+                        npkey = key if form in ("int", "other") else np.array(key, dtype=(bool if form == "mask" else int))
+                        r = call(lambda: garr[npkey])
+                        ktok = f"int {key}" if form == "int" else f"idx {flist(key)}" if form == "idx" else f"mask {len(key)} " + " ".join(str(int(b_)) for b_ in key) if form == "mask" else "other"
+                        lines.append(f"getitem {gkind} {ktok} {enc_rows}")
+                        if form == "other":
+                            impl.append("!NotImplementedError" if type(r) is np.ndarray else f"!typed-{type(r).__name__}")  # plain ndarray: outside the modelled keys
+                        elif isinstance(r, Raised):
+                            impl.append(repr(r))
+                        else:
+                            cls = type(r)
+                            rk = ("elem " if cls in (d.Coordinate, d.Voxel, d.VoxelCenter) else "arr " if cls in (d.CoordinateArray, d.VoxelArray, d.VoxelCenterArray) else "plain ")
+                            kn = "coord" if isinstance(r, d.Coordinate) else "vox" if isinstance(r, d.Voxel) else "ctr" if isinstance(r, d.VoxelCenter) else "?"
+                            vals = np.atleast_2d(np.asarray(r))
+                            impl.append(rk + kn + " | " + show_rows(vals))
             # call forms: coordinate(list | tuple | array), voxel(list | tuple | array)
             pv_ = [float(x) for x in pts[0]]
             for f_, arg in (("list", pv_), ("tuple", tuple(pv_)), ("array", np.array(pv_))):
